@@ -89,6 +89,11 @@ structure Case where
   cls    : Cls
   fields : List Field
   poison : Poison
+  /-- the class body has a `functools.cached_property` (matters on slotted classes only: they get a
+      generated `__getattr__`, `_make_cached_property_getattr`) -/
+  cachedProp : Option Bool := none
+  /-- the class body has its own `__getattr__` (the generated one then delegates to it) -/
+  ownGetattr : Option Bool := none
   deriving DecidableEq, Repr, FromJson, ToJson, Inhabited
 
 /-! ### objects a global name can be bound to -/
@@ -332,9 +337,36 @@ def uses (c : Case) : List Entry :=
   (if hashGenerated c then hashUses c else []) ++
   initUses c
 
+/-! ### the cached-property `__getattr__` of slotted classes: a script of its own, own globals -/
+
+def hasCachedGetattr (c : Case) : Bool := c.cls.slots && c.cachedProp == some true
+
+/-- a name the script means as the plain builtin -/
+def bi (m n : String) : Entry := { meth := m, name := n, obj := ⟨.builtin, n⟩ }
+
+/-- loads of `wrapper` (the default expressions of `__getattr__`'s helper parameters) and of
+    `__getattr__` itself (only the fallback branch, absent when the class has its own `__getattr__`) -/
+def getattrUses (c : Case) : List Entry :=
+  if hasCachedGetattr c then
+    [fx "getattrTop" "cached_properties", fx "getattrTop" "original_getattr",
+     fx "getattrTop" "_cached_setattr_get"] ++
+    (if c.ownGetattr == some true then []
+     else [bi "getattr" "super", bi "getattr" "AttributeError", bi "getattr" "hasattr"])
+  else []
+
+def getattrPart (modul : Globs) : String → Globs
+  | "fixed" => fixedBinds Generated.c17GetattrFixed
+  | "module" => modul
+  | _ => []
+
+/-- globals of the `__getattr__` script; `go` is the order of the sources of its `glob` dict -/
+def getattrGlobsWith (go : List String) (modul : Globs) : Globs := go.flatMap (getattrPart modul)
+
+def getattrGlobs (modul : Globs) : Globs := getattrGlobsWith Generated.c17GetattrMergeOrder modul
+
 abbrev Load := String × String    -- (method, global name)
 
-def loads (c : Case) : List Load := (uses c).map (fun u => (u.meth, u.name))
+def loads (c : Case) : List Load := (uses c ++ getattrUses c).map (fun u => (u.meth, u.name))
 
 /-! ### the poisoned module and the resolution table -/
 
@@ -345,7 +377,8 @@ def moduleGlobs (c : Case) : Globs :=
   | .none => []
   | .all => (loads c).map (fun l => (l.2, moduleObj l.2))
   | .helpersOnly =>
-    ((loads c).filter (fun l => (lookup (helperGlobs c) l.2).isSome)).map (fun l => (l.2, moduleObj l.2))
+    ((loads c).filter (fun l => (lookup (helperGlobs c ++ getattrGlobs []) l.2).isSome)).map
+      (fun l => (l.2, moduleObj l.2))
 
 def resolveIn (g : Globs) (n : String) : Obj :=
   match lookup g n with
@@ -357,6 +390,10 @@ def globalsOf (c : Case) : Globs := assemble c (moduleGlobs c)
 /-- what every load actually finds -/
 def table (c : Case) : List Entry :=
   (uses c).map (fun u => { u with obj := resolveIn (globalsOf c) u.name })
+
+/-- what the loads of the `__getattr__` script find, in that script's own globals -/
+def getattrTable (c : Case) : List Entry :=
+  (getattrUses c).map (fun u => { u with obj := resolveIn (getattrGlobs (moduleGlobs c)) u.name })
 
 def injected (c : Case) : List String := (helperGlobs c).map (·.1)
 
@@ -372,8 +409,8 @@ def paramShadows (c : Case) : Bool :=
   (params c).any (fun p => (initBodyNames c).contains p || (assignedLocals c).contains p)
 
 def model (c : Case) : Obs :=
-  { defErr := "", table := table c, injected := injected c,
-    poisonOk := !(table c).any (fun e => e.obj.kind == .module),
+  { defErr := "", table := table c ++ getattrTable c, injected := injected c,
+    poisonOk := !(table c ++ getattrTable c).any (fun e => e.obj.kind == .module),
     neutralOk := !(helperClash c || paramShadows c),
     sourceOk := true,
     sharedOk := true }
